@@ -137,6 +137,9 @@ struct RunSpec {
     expect: String,
     /// promised stdout: "text" (non-empty), "json", "csv", "none"
     stdout: &'static str,
+    /// what the printed numbers / enumerations must be, taken from the same library object the sub-command prints from:
+    /// [{"re": <regex with one group>, "want": <text>} | {"re": <regex>, "count": n} | {"tiles": [[x,y,area]…]}]
+    facts: Value,
 }
 
 fn sv(xs: &[&str]) -> Vec<String> {
@@ -402,6 +405,173 @@ fn lib_wdl_convert(p: &Path, from: Option<&str>, to: &str) -> RB {
     Ok(out.into_inner())
 }
 
+
+// ---------------------------------------------------------------- facts ----
+// Numbers and enumerations a sub-command prints, computed from the same library object it prints from.
+
+fn facts(f: impl FnOnce() -> Option<Vec<Value>>) -> Value {
+    if nolib().is_some() {
+        return json!([]);
+    }
+    match trap(f) {
+        Ok(Some(v)) => Value::Array(v),
+        _ => json!([]),
+    }
+}
+fn line(re: &str, want: impl ToString) -> Value {
+    json!({"re": re, "want": want.to_string()})
+}
+fn count(re: &str, n: usize) -> Value {
+    json!({"re": re, "count": n})
+}
+
+fn facts_blp_info(p: &Path) -> Value {
+    facts(|| {
+        let b = wow_blp::parser::load_blp(p).ok()?;
+        Some(vec![line(r"^Dimensions: (\d+x\d+)$", format!("{}x{}", b.header.width, b.header.height)), line(r"^Image Count: (\d+)$", b.image_count())])
+    })
+}
+fn facts_dbc(p: &Path, which: Option<usize>, sub: &str, limit: usize) -> Value {
+    facts(|| {
+        let mut r = BufReader::new(File::open(p).ok()?);
+        let parser = wow_cdbc::DbcParser::parse(&mut r).ok()?;
+        let h = parser.header().clone();
+        let parser = match which {
+            Some(w) => parser.with_schema(dbc_schema(w)).ok()?,
+            None => parser,
+        };
+        let rs = parser.parse_records().ok()?;
+        Some(match sub {
+            "info" => vec![
+                line(r"^Record Count: (\d+)$", h.record_count),
+                line(r"^Field Count: (\d+)$", h.field_count),
+                line(r"^Record Size: (\d+) bytes$", h.record_size),
+                line(r"^String Block Size: (\d+) bytes$", h.string_block_size),
+            ],
+            "list" => vec![line(r"^Total records: (\d+)$", rs.len()), count(r"^Record \d+:$", limit.min(rs.len()))],
+            "analyze" => vec![line(r"^Total records: (\d+)$", rs.len())],
+            "validate" => vec![line(r"Successfully parsed (\d+) records", rs.len())],
+            "discover" => vec![line(r"^Record Count: (\d+)$", h.record_count), line(r"^Field Count: (\d+)$", h.field_count)],
+            _ => vec![],
+        })
+    })
+}
+fn facts_m2_info(p: &Path) -> Value {
+    facts(|| {
+        let f = wow_m2::M2Model::load(p).ok()?;
+        let h = &f.model().header;
+        Some(vec![
+            line(r"^Version: (\d+)$", h.version),
+            line(r"^Vertices: (\d+)$", h.vertices.count),
+            line(r"^Bones: (\d+)$", h.bones.count),
+            line(r"^Animations: (\d+)$", h.animations.count),
+            line(r"^Textures: (\d+)$", h.textures.count),
+        ])
+    })
+}
+fn facts_skin_info(p: &Path) -> Value {
+    facts(|| {
+        let s = wow_m2::SkinFile::load(p).ok()?;
+        Some(vec![
+            line(r"^Indices: (\d+)$", s.indices().len()),
+            line(r"^Triangles: (\d+)$", s.triangles().len()),
+            line(r"^Bone Indices: (\d+)$", s.bone_indices().len()),
+            line(r"^Submeshes: (\d+)$", s.submeshes().len()),
+            line(r"^Batches: (\d+)$", s.batches().len()),
+        ])
+    })
+}
+fn facts_anim_info(p: &Path) -> Value {
+    facts(|| {
+        let a = wow_m2::AnimFile::load(p).ok()?;
+        Some(vec![line(r"^Animation Sections: (\d+)$", a.animation_count())])
+    })
+}
+fn facts_wmo_info(p: &Path) -> Value {
+    facts(|| {
+        let mut r = BufReader::new(File::open(p).ok()?);
+        let res = wow_wmo::parse_wmo_with_metadata(&mut r).ok()?;
+        Some(match &res.wmo {
+            wow_wmo::ParsedWmo::Root(root) => vec![
+                line(r"^File Type: (.+)$", "Root WMO"),
+                line(r"^  Materials: (\d+)$", root.n_materials),
+                line(r"^  Groups: (\d+)$", root.n_groups),
+                line(r"^  Portals: (\d+)$", root.n_portals),
+                line(r"^  Lights: (\d+)$", root.n_lights),
+            ],
+            wow_wmo::ParsedWmo::Group(g) => vec![line(r"^File Type: (.+)$", "Group WMO"), line(r"^  Triangles: (\d+)$", g.n_triangles), line(r"^  Vertices: (\d+)$", g.n_vertices)],
+        })
+    })
+}
+fn facts_adt(p: &Path, sub: &str) -> Value {
+    facts(|| {
+        let mut r = BufReader::new(File::open(p).ok()?);
+        let (adt, meta) = wow_adt::parse_adt_with_metadata(&mut r).ok()?;
+        if sub == "validate" {
+            return Some(vec![line(r"^Chunks: (\d+)$", meta.chunk_count)]);
+        }
+        Some(match adt {
+            wow_adt::ParsedAdt::Root(root) => vec![
+                line(r"^  Chunks: (\d+)/256$", root.mcnk_chunks.len()),
+                line(r"^Textures: (\d+)$", root.textures.len()),
+                line(r"^Models \(M2\): (\d+)$", root.models.len()),
+                line(r"^WMOs: (\d+)$", root.wmos.len()),
+                line(r"^  M2 Doodads: (\d+)$", root.doodad_placements.len()),
+                line(r"^  WMO Objects: (\d+)$", root.wmo_placements.len()),
+            ],
+            wow_adt::ParsedAdt::Tex0(t) | wow_adt::ParsedAdt::Tex1(t) => vec![line(r"^  Textures: (\d+)$", t.textures.len()), line(r"^  MCNK chunks with texture data: (\d+)$", t.mcnk_textures.len())],
+            wow_adt::ParsedAdt::Obj0(o) | wow_adt::ParsedAdt::Obj1(o) => vec![
+                line(r"^  M2 Models: (\d+)$", o.models.len()),
+                line(r"^  WMO Objects: (\d+)$", o.wmos.len()),
+                line(r"^  M2 Placements: (\d+)$", o.doodad_placements.len()),
+                line(r"^  WMO Placements: (\d+)$", o.wmo_placements.len()),
+            ],
+            wow_adt::ParsedAdt::Lod(_) => vec![],
+        })
+    })
+}
+/// `wdt info` / `wdt tree` tile count and the full tile set `wdt tiles` has to enumerate (x, y, area id of every tile with an ADT).
+fn facts_wdt(p: &Path, ver: &str, sub: &str) -> Value {
+    facts(|| {
+        let v = wow_wdt::version::WowVersion::from_expansion_name(ver).ok()?;
+        let f = File::open(p).ok()?;
+        let wdt = wow_wdt::WdtReader::new(BufReader::new(f), v).read().ok()?;
+        Some(match sub {
+            "info" => vec![line(r"^ADT Tiles: (\d+) / 4096 tiles$", wdt.count_existing_tiles())],
+            "tree" => vec![line(r"tiles: (\d+)", wdt.count_existing_tiles())],
+            _ => {
+                let mut tiles = Vec::new();
+                for y in 0..64usize {
+                    for x in 0..64usize {
+                        if let Some(t) = wdt.get_tile(x, y) {
+                            if t.has_adt {
+                                tiles.push(json!([x, y, t.area_id]));
+                            }
+                        }
+                    }
+                }
+                vec![json!({"tiles": tiles})]
+            }
+        })
+    })
+}
+fn facts_wdl_info(p: &Path) -> Value {
+    facts(|| {
+        let mut r = BufReader::new(File::open(p).ok()?);
+        let f = wow_wdl::parser::WdlParser::new().parse(&mut r).ok()?;
+        let tiles = f.map_tile_offsets.iter().filter(|o| **o != 0).count();
+        Some(vec![line(r"^Total Chunks: (\d+)$", f.chunks.len()), line(r"^Map Tiles: (\d+)/4096$", tiles)])
+    })
+}
+fn facts_wdl_tree(p: &Path, ver: &str) -> Value {
+    facts(|| {
+        let mut r = BufReader::new(File::open(p).ok()?);
+        let f = wdl_parser(Some(ver)).parse(&mut r).ok()?;
+        let tiles = f.map_tile_offsets.iter().filter(|o| **o != 0).count();
+        Some(vec![line(r"chunks: (\d+)", f.chunks.len()), line(r"tiles: (\d+)", tiles)])
+    })
+}
+
 // ------------------------------------------------------------ run plans ----
 
 fn ext_of(fmt: &str) -> &'static str {
@@ -437,16 +607,25 @@ fn plan(fmt: &str, seed: &Seed, class: &str, p: &Path, tmp: &Path, schema_path: 
     let mut v: Vec<RunSpec> = Vec::new();
     fn push<L: Into<LibV>>(v: &mut Vec<RunSpec>, family: &'static str, sub: &'static str, opt: &'static str, args: Vec<String>, lib: L, out: Option<(&'static str, String, String)>, stdout: &'static str) {
         let l: LibV = lib.into();
-        v.push(RunSpec { family, sub, opt, args, lib: l.v, out, stdout, expect: l.expect });
+        v.push(RunSpec { family, sub, opt, args, lib: l.v, out, stdout, expect: l.expect, facts: json!([]) });
     }
     macro_rules! add {
         ($($a:expr),* $(,)?) => { push(&mut v, $($a),*) };
+    }
+    // attach facts to the run added last
+    macro_rules! with_facts {
+        ($f:expr) => {
+            if let Some(last) = v.last_mut() {
+                last.facts = $f;
+            }
+        };
     }
     let valid = class == "valid";
     match fmt {
         "blp" => {
             let load = verdict(|| lib_blp_load(p));
             add!("blp", "info", "default", sv(&["blp", "info", "{in}"]), load.clone(), None, "text");
+            with_facts!(facts_blp_info(p));
             add!("blp", "info", "all", sv(&["blp", "info", "{in}", "--all", "--raw", "--best-mipmap-for", "4"]), load.clone(), None, "text");
             add!("blp", "validate", "default", sv(&["blp", "validate", "{in}"]), load.clone(), None, "text");
             add!("blp", "validate", "strict", sv(&["blp", "validate", "{in}", "--strict"]), load.clone(), None, "text");
@@ -471,16 +650,23 @@ fn plan(fmt: &str, seed: &Seed, class: &str, p: &Path, tmp: &Path, schema_path: 
             let with = verdict(|| lib_dbc_schema(p, which, false));
             let nrec = dbc_record_count(p, which);
             add!("dbc", "info", "default", sv(&["dbc", "info", "{in}"]), raw.clone(), None, "text");
+            with_facts!(facts_dbc(p, None, "info", 0));
             add!("dbc", "list", "no-schema", sv(&["dbc", "list", "{in}"]), raw.clone(), None, "text");
+            with_facts!(facts_dbc(p, None, "list", 10));
             add!("dbc", "list", "schema", sv(&["dbc", "list", "{in}", "--schema", schema_path, "--limit", "3"]), with.clone(), None, "text");
+            with_facts!(facts_dbc(p, Some(which), "list", 3));
             add!("dbc", "export", "json-file", sv(&["dbc", "export", "{in}", "--schema", schema_path, "--format", "json", "--output", "{out}.json"]), with.clone(), Some(("json", "{out}.json".into(), nrec.clone())), "text");
             add!("dbc", "export", "csv-file", sv(&["dbc", "export", "{in}", "--schema", schema_path, "--format", "csv", "--output", "{out}.csv"]), with.clone(), Some(("csv", "{out}.csv".into(), nrec.clone())), "text");
             add!("dbc", "export", "json-stdout", sv(&["dbc", "export", "{in}", "--schema", schema_path]), with.clone(), None, "json");
             add!("dbc", "analyze", "no-schema", sv(&["dbc", "analyze", "{in}"]), raw.clone(), None, "text");
+            with_facts!(facts_dbc(p, None, "analyze", 0));
             add!("dbc", "analyze", "schema-sorted", sv(&["dbc", "analyze", "{in}", "--schema", schema_path, "--cache-strings", "--sorted-keys"]), verdict(|| lib_dbc_schema(p, which, true)), None, "text");
+            with_facts!(facts_dbc(p, Some(which), "analyze", 0));
             add!("dbc", "validate", "schema", sv(&["dbc", "validate", "{in}", "--schema", schema_path]), with, None, "text");
+            with_facts!(facts_dbc(p, Some(which), "validate", 0));
             let disc = verdict(|| lib_dbc_discover(p));
             add!("dbc", "discover", "text", sv(&["dbc", "discover", "{in}"]), disc.clone(), None, "text");
+            with_facts!(facts_dbc(p, None, "discover", 0));
             add!("dbc", "discover", "text-file", sv(&["dbc", "discover", "{in}", "--output", "{out}.txt"]), disc.clone(), Some(("text-schema", "{out}.txt".into(), String::new())), "text");
             add!("dbc", "discover", "yaml-file", sv(&["dbc", "discover", "{in}", "--yaml", "--output", "{out}.yaml"]), disc, Some(("yaml-schema", "{out}.yaml".into(), String::new())), "text");
         }
@@ -488,7 +674,9 @@ fn plan(fmt: &str, seed: &Seed, class: &str, p: &Path, tmp: &Path, schema_path: 
             let load = verdict(|| lib_m2_load(p));
             let val = verdict(|| lib_m2_validate(p));
             add!("m2", "info", "default", sv(&["m2", "info", "{in}"]), load.clone(), None, "text");
+            with_facts!(facts_m2_info(p));
             add!("m2", "info", "detailed", sv(&["m2", "info", "{in}", "--detailed"]), load.clone(), None, "text");
+            with_facts!(facts_m2_info(p));
             add!("m2", "validate", "default", sv(&["m2", "validate", "{in}"]), val.clone(), None, "text");
             add!("m2", "validate", "warnings", sv(&["m2", "validate", "{in}", "--warnings"]), val, None, "text");
             add!("m2", "tree", "default", sv(&["m2", "tree", "{in}"]), load.clone(), None, "text");
@@ -500,7 +688,9 @@ fn plan(fmt: &str, seed: &Seed, class: &str, p: &Path, tmp: &Path, schema_path: 
         "skin" => {
             let load = verdict(|| lib_skin_load(p));
             add!("m2", "skin-info", "default", sv(&["m2", "skin-info", "{in}"]), load.clone(), None, "text");
+            with_facts!(facts_skin_info(p));
             add!("m2", "skin-info", "detailed", sv(&["m2", "skin-info", "{in}", "--detailed"]), load, None, "text");
+            with_facts!(facts_skin_info(p));
             add!("m2", "skin-info", "old-format", sv(&["m2", "skin-info", "{in}", "--old-format"]), verdict(|| lib_skin_load_old(p)), None, "text");
             for (opt, ver) in [("to-cata", "cata"), ("to-wotlk", "wotlk")] {
                 add!("m2", "skin-convert", opt, sv(&["m2", "skin-convert", "{in}", "{out}.skin", "--version", ver]), verdict_out(|| lib_skin_convert(p, ver, tmp)), Some(("skin", "{out}.skin".into(), String::new())), "text");
@@ -509,7 +699,9 @@ fn plan(fmt: &str, seed: &Seed, class: &str, p: &Path, tmp: &Path, schema_path: 
         "anim" => {
             let load = verdict(|| lib_anim_load(p));
             add!("m2", "anim-info", "default", sv(&["m2", "anim-info", "{in}"]), load.clone(), None, "text");
+            with_facts!(facts_anim_info(p));
             add!("m2", "anim-info", "detailed", sv(&["m2", "anim-info", "{in}", "--detailed"]), load, None, "text");
+            with_facts!(facts_anim_info(p));
             for (opt, ver) in [("to-legion", "legion"), ("to-wotlk", "wotlk")] {
                 add!("m2", "anim-convert", opt, sv(&["m2", "anim-convert", "{in}", "{out}.anim", "--version", ver]), verdict_out(|| lib_anim_convert(p, ver, tmp)), Some(("anim", "{out}.anim".into(), String::new())), "text");
             }
@@ -517,7 +709,9 @@ fn plan(fmt: &str, seed: &Seed, class: &str, p: &Path, tmp: &Path, schema_path: 
         "wmo-root" | "wmo-group" => {
             let parse = verdict(|| lib_wmo_parse(p));
             add!("wmo", "info", "default", sv(&["wmo", "info", "{in}"]), parse.clone(), None, "text");
+            with_facts!(facts_wmo_info(p));
             add!("wmo", "info", "detailed", sv(&["wmo", "info", "{in}", "--detailed"]), parse.clone(), None, "text");
+            with_facts!(facts_wmo_info(p));
             add!("wmo", "validate", "default", sv(&["wmo", "validate", "{in}"]), parse.clone(), None, "text");
             add!("wmo", "validate", "warnings-detailed", sv(&["wmo", "validate", "{in}", "--warnings", "--detailed"]), parse.clone(), None, "text");
             add!("wmo", "tree", "default", sv(&["wmo", "tree", "{in}"]), parse.clone(), None, "text");
@@ -536,9 +730,13 @@ fn plan(fmt: &str, seed: &Seed, class: &str, p: &Path, tmp: &Path, schema_path: 
         "adt" => {
             let parse = verdict(|| lib_adt_parse(p));
             add!("adt", "info", "default", sv(&["adt", "info", "{in}"]), parse.clone(), None, "text");
+            with_facts!(facts_adt(p, "info"));
             add!("adt", "info", "detailed", sv(&["adt", "info", "{in}", "--detailed"]), parse.clone(), None, "text");
+            with_facts!(facts_adt(p, "info"));
             add!("adt", "validate", "default", sv(&["adt", "validate", "{in}"]), parse.clone(), None, "text");
+            with_facts!(facts_adt(p, "validate"));
             add!("adt", "validate", "strict-warnings", sv(&["adt", "validate", "{in}", "--level", "strict", "--warnings"]), parse.clone(), None, "text");
+            with_facts!(facts_adt(p, "validate"));
             add!("adt", "tree", "default", sv(&["adt", "tree", "{in}"]), parse.clone(), None, "text");
             add!("adt", "tree", "refs-compact", sv(&["adt", "tree", "{in}", "--show-refs", "--no-color", "--compact"]), parse, None, "text");
             for (opt, ver) in [("to-wotlk", "wotlk"), ("to-cata", "cataclysm")] {
@@ -550,13 +748,19 @@ fn plan(fmt: &str, seed: &Seed, class: &str, p: &Path, tmp: &Path, schema_path: 
             let dflt = verdict(|| lib_wdt_read(p, "WotLK"));
             let ownv = verdict(|| lib_wdt_read(p, own));
             add!("wdt", "info", "default", sv(&["wdt", "info", "{in}"]), dflt.clone(), None, "text");
+            with_facts!(facts_wdt(p, "WotLK", "info"));
             add!("wdt", "info", "detailed-own-version", sv(&["wdt", "info", "{in}", "--detailed", "--version", own]), ownv.clone(), None, "text");
+            with_facts!(facts_wdt(p, own, "info"));
             add!("wdt", "validate", "default", sv(&["wdt", "validate", "{in}"]), dflt.clone(), None, "text");
             add!("wdt", "validate", "warnings-own-version", sv(&["wdt", "validate", "{in}", "--warnings", "--version", own]), ownv.clone(), None, "text");
             add!("wdt", "tiles", "text", sv(&["wdt", "tiles", "{in}"]), dflt.clone(), None, "text");
+            with_facts!(facts_wdt(p, "WotLK", "tiles"));
             add!("wdt", "tiles", "json", sv(&["wdt", "tiles", "{in}", "--format", "json", "--version", own]), ownv.clone(), None, "json");
+            with_facts!(facts_wdt(p, own, "tiles"));
             add!("wdt", "tiles", "csv", sv(&["wdt", "tiles", "{in}", "--format", "csv", "--version", own]), ownv.clone(), None, "csv");
+            with_facts!(facts_wdt(p, own, "tiles"));
             add!("wdt", "tree", "default", sv(&["wdt", "tree", "{in}"]), dflt, None, "text");
+            with_facts!(facts_wdt(p, "WotLK", "tree"));
             add!("wdt", "tree", "compact-own-version", sv(&["wdt", "tree", "{in}", "--compact", "--no-color", "--no-external-refs", "--version", own]), ownv.clone(), None, "text");
             for (opt, to) in [("own-to-cata", "cata"), ("own-to-classic", "classic"), ("own-to-bfa", "bfa")] {
                 let noop = wdt_conversion_is_noop(p, own, to).unwrap_or(false);
@@ -577,9 +781,11 @@ fn plan(fmt: &str, seed: &Seed, class: &str, p: &Path, tmp: &Path, schema_path: 
         "wdl" => {
             let auto = verdict(|| lib_wdl_parse(p, None));
             add!("wdl", "info", "default", sv(&["wdl", "info", "{in}"]), auto, None, "text");
+            with_facts!(facts_wdl_info(p));
             add!("wdl", "validate", "auto", sv(&["wdl", "validate", "{in}"]), verdict(|| lib_wdl_validate(p, None)), None, "text");
             add!("wdl", "validate", "as-wotlk", sv(&["wdl", "validate", "{in}", "--version", "wotlk"]), verdict(|| lib_wdl_validate(p, Some("wotlk"))), None, "text");
             add!("wdl", "tree", "default", sv(&["wdl", "tree", "{in}"]), verdict(|| lib_wdl_parse(p, Some("wotlk"))), None, "text");
+            with_facts!(facts_wdl_tree(p, "wotlk"));
             add!("wdl", "tree", "as-legion-compact", sv(&["wdl", "tree", "{in}", "--version", "legion", "--compact", "--no-color", "--no-external-refs"]), verdict(|| lib_wdl_parse(p, Some("legion"))), None, "text");
             for (opt, to) in [("to-legion", "legion"), ("to-vanilla", "vanilla"), ("to-wotlk", "wotlk")] {
                 add!("wdl", "convert", opt, sv(&["wdl", "convert", "{in}", "{out}.wdl", "--to", to]), verdict_out(|| lib_wdl_convert(p, None, to)), Some(("wdl", "{out}.wdl".into(), to.to_string())), "text");
@@ -678,6 +884,22 @@ fn png_bytes(alpha: bool) -> Vec<u8> {
     buf.into_inner()
 }
 
+/// A WDT whose existing tiles sit on every border of the 64x64 grid (first/last row and column) with distinct area ids:
+/// whatever enumerates tiles has to reach x = 63 and y = 63.
+fn wdt_border_seed() -> Seed {
+    let mut w = wow_wdt::WdtFile::new(wow_wdt::version::WowVersion::WotLK);
+    for (i, &(x, y)) in [(0usize, 0usize), (63, 0), (0, 63), (63, 63), (63, 5), (7, 63), (31, 32), (62, 62)].iter().enumerate() {
+        if let Some(e) = w.main.get_mut(x, y) {
+            e.set_has_adt(true);
+            e.area_id = 100 + i as u32;
+        }
+    }
+    w.mwmo = Some(wow_wdt::chunks::MwmoChunk::new());
+    let mut out = Vec::new();
+    wow_wdt::WdtWriter::new(&mut out).write(&w).expect("WDT writer failed on a valid object");
+    Seed::chunked("wdt/wotlk-border-tiles", out)
+}
+
 // ------------------------------------------------------------ generate ----
 
 fn generate(a: &BTreeMap<String, String>) {
@@ -732,7 +954,7 @@ fn generate(a: &BTreeMap<String, String>) {
             .iter()
             .map(|r| {
                 json!({"family": r.family, "sub": r.sub, "opt": r.opt, "args": r.args, "lib": r.lib,
-                       "out": r.out.as_ref().map(|(k, p, arg)| json!({"kind": k, "path": p, "arg": arg, "expect": r.expect})), "stdout": r.stdout})
+                       "out": r.out.as_ref().map(|(k, p, arg)| json!({"kind": k, "path": p, "arg": arg, "expect": r.expect})), "stdout": r.stdout, "facts": r.facts})
             })
             .collect();
         let _ = fdef;
@@ -747,7 +969,10 @@ fn generate(a: &BTreeMap<String, String>) {
     };
 
     for f in &formats {
-        let seeds = (f.seeds)(&ctx);
+        let mut seeds = (f.seeds)(&ctx);
+        if f.name == "wdt" {
+            seeds.push(wdt_border_seed());
+        }
         if seeds.is_empty() {
             continue;
         }
@@ -759,6 +984,9 @@ fn generate(a: &BTreeMap<String, String>) {
             chosen.push(0);
             if seeds.len() > 1 {
                 chosen.push(1 + ((verif_seed.wrapping_add(fnv64(f.name.as_bytes()))) % (seeds.len() as u64 - 1)) as usize);
+            }
+            if f.name == "wdt" && !chosen.contains(&(seeds.len() - 1)) {
+                chosen.push(seeds.len() - 1); // the border-tile seed is part of every run
             }
         }
         for &si in &chosen {
